@@ -43,6 +43,25 @@ var (
 const RejectedID = ^uint32(0)
 
 func BuildFunc(dir string, n int, row func(i int) model.Row, w Writer) (string, []uint32, error) {
+	// every row is handed to AddRow in ONE map that is refilled for the next row and scribbled over before Flush (what an
+	// ingest loop does): a writer that keeps the caller's map instead of consuming it indexes later contents
+	buf := map[string]string{}
+	reuse := func(r model.Row) map[string]string {
+		for k := range buf {
+			buf[k] = "\x00stale " + k
+		}
+		clear(buf)
+		for k, v := range r {
+			buf[k] = v
+		}
+		return buf
+	}
+	scribble := func() {
+		for k := range buf {
+			buf[k] = "\x00scribbled"
+		}
+		buf["\x00scribbled column"] = "x"
+	}
 	seq++
 	Rejected = nil
 	path := filepath.Join(dir, fmt.Sprintf("ix%d-%s.updog", seq, w))
@@ -51,7 +70,7 @@ func BuildFunc(dir string, n int, row func(i int) model.Row, w Writer) (string, 
 	case MemFile, MemDB:
 		iw := updog.NewIndexWriter(path)
 		for i := 0; i < n; i++ {
-			id, err := iw.AddRow(row(i))
+			id, err := iw.AddRow(reuse(row(i)))
 			if err != nil && TolerateRejects {
 				Rejected = append(Rejected, i)
 				ids = append(ids, RejectedID)
@@ -62,6 +81,7 @@ func BuildFunc(dir string, n int, row func(i int) model.Row, w Writer) (string, 
 			}
 			ids = append(ids, id)
 		}
+		scribble()
 		if w == MemFile {
 			return path, ids, iw.Flush()
 		}
@@ -101,7 +121,7 @@ func BuildFunc(dir string, n int, row func(i int) model.Row, w Writer) (string, 
 			db.Close()
 		}
 		for i := 0; i < n; i++ {
-			id, err := bw.AddRow(row(i))
+			id, err := bw.AddRow(reuse(row(i)))
 			if err != nil && TolerateRejects {
 				Rejected = append(Rejected, i)
 				ids = append(ids, RejectedID)
@@ -113,6 +133,7 @@ func BuildFunc(dir string, n int, row func(i int) model.Row, w Writer) (string, 
 			}
 			ids = append(ids, id)
 		}
+		scribble()
 		if err := bw.Flush(); err != nil {
 			abort()
 			return "", nil, err
